@@ -108,6 +108,10 @@ def _piece_value(piece, df, i, cache):
             if key not in cache:
                 cache[key] = eval(a[1], {}, {v: df[v].to_numpy() for v in ("x", "z", "w")})
             return cache[key][i]
+    mp = re.fullmatch(r"poly\((x|z|w), (\d+), raw=True\)\[(\d+)\]", piece)
+    if mp and int(mp.group(3)) < int(mp.group(2)):
+        # column k of a raw polynomial basis is the (k + 1)-th power of the variable
+        return float(df[mp.group(1)].iloc[i]) ** (int(mp.group(3)) + 1)
     m = re.fullmatch(r"(.*)\[([^\[\]]*)\]", piece)
     if not m or m.group(1) not in ATOMS:
         raise KeyError(piece)
